@@ -12,6 +12,11 @@
    Server.Close begins the teardown of every connection before it waits for any of them
    (the design the code has since fix 009bdbe).
 
+   The life-cycle skeleton of this module (goroutine states, stop phases, will) is the module
+   `Life`: TLC checks that every step of Teardown is a step of Life or leaves Life's variables
+   unchanged (`LifeRefined`), and recorded event traces of the real code are validated against
+   Life (`LifeTrace`) - that is how this design-level module is tied to the code.
+
    TornDown: under weak fairness of every broker step, strong fairness of deliveries to a
    client that reads, and the environment assumption that a client that has stopped
    reading is eventually cut (the property's proviso), every connection that ended is
@@ -31,9 +36,11 @@ VARIABLES cl,        \* client end: "open" | "cut"
           stp,       \* teardown progress
           stopper,   \* who runs stop: "none" | "prc" | "srv"
           wfan,      \* will fan-out targets left
-          willOn, srvClosed
+          willOn, srvClosed,
+          willed,    \* the teardown has handed the will to the fan-out
+          discd      \* the processor has seen a DISCONNECT
 
-vars == <<cl, reading, sent, inq, outq, inDone, outDone, rcv, prc, snd, fan, busy, stp, stopper, wfan, willOn, srvClosed>>
+vars == <<cl, reading, sent, inq, outq, inDone, outDone, rcv, prc, snd, fan, busy, stp, stopper, wfan, willOn, srvClosed, willed, discd>>
 
 SetToSeq(S) == CHOOSE s \in [1..Cardinality(S) -> S] : \A i, j \in 1..Cardinality(S) : i # j => s[i] # s[j]
 
@@ -47,37 +54,41 @@ Init ==
   /\ stp = [c \in Conns |-> "no"] /\ stopper = [c \in Conns |-> "none"]
   /\ wfan = [c \in Conns |-> <<>>]
   /\ willOn = [c \in Conns |-> WillOf[c]] /\ srvClosed = FALSE
+  /\ willed = [c \in Conns |-> FALSE] /\ discd = [c \in Conns |-> FALSE]
 
 ---------------------------------------------------------------------------
 (* environment *)
 Send(c, k) ==   \* the receiver only reads the socket while the ring has room
   /\ cl[c] = "open" /\ rcv[c] = "run" /\ ~inDone[c] /\ Len(inq[c]) < InCap /\ sent[c] < MaxSend
   /\ inq' = [inq EXCEPT ![c] = Append(@, k)] /\ sent' = [sent EXCEPT ![c] = @ + 1]
-  /\ UNCHANGED <<cl, reading, outq, inDone, outDone, rcv, prc, snd, fan, busy, stp, stopper, wfan, willOn, srvClosed>>
+  /\ UNCHANGED <<cl, reading, outq, inDone, outDone, rcv, prc, snd, fan, busy, stp, stopper, wfan, willOn, srvClosed, willed, discd>>
 
 Recv(c) ==      \* sender goroutine hands the head of the out ring to a reading client
   /\ cl[c] = "open" /\ reading[c] /\ snd[c] = "run" /\ outq[c] # <<>>
   /\ outq' = [outq EXCEPT ![c] = Tail(@)]
-  /\ UNCHANGED <<cl, reading, sent, inq, inDone, outDone, rcv, prc, snd, fan, busy, stp, stopper, wfan, willOn, srvClosed>>
+  /\ UNCHANGED <<cl, reading, sent, inq, inDone, outDone, rcv, prc, snd, fan, busy, stp, stopper, wfan, willOn, srvClosed, willed, discd>>
 
 StopReading(c) == /\ cl[c] = "open" /\ reading[c] /\ reading' = [reading EXCEPT ![c] = FALSE]
-                  /\ UNCHANGED <<cl, sent, inq, outq, inDone, outDone, rcv, prc, snd, fan, busy, stp, stopper, wfan, willOn, srvClosed>>
+                  /\ UNCHANGED <<cl, sent, inq, outq, inDone, outDone, rcv, prc, snd, fan, busy, stp, stopper, wfan, willOn, srvClosed, willed, discd>>
 Resume(c) ==      /\ FALSE /\ cl[c] = "open" /\ ~reading[c] /\ reading' = [reading EXCEPT ![c] = TRUE]
-                  /\ UNCHANGED <<cl, sent, inq, outq, inDone, outDone, rcv, prc, snd, fan, busy, stp, stopper, wfan, willOn, srvClosed>>
+                  /\ UNCHANGED <<cl, sent, inq, outq, inDone, outDone, rcv, prc, snd, fan, busy, stp, stopper, wfan, willOn, srvClosed, willed, discd>>
 Cut(c) ==         /\ cl[c] = "open" /\ cl' = [cl EXCEPT ![c] = "cut"]
-                  /\ UNCHANGED <<reading, sent, inq, outq, inDone, outDone, rcv, prc, snd, fan, busy, stp, stopper, wfan, willOn, srvClosed>>
+                  /\ UNCHANGED <<reading, sent, inq, outq, inDone, outDone, rcv, prc, snd, fan, busy, stp, stopper, wfan, willOn, srvClosed, willed, discd>>
 ServerClose ==    /\ ~srvClosed /\ srvClosed' = TRUE
-                  /\ UNCHANGED <<cl, reading, sent, inq, outq, inDone, outDone, rcv, prc, snd, fan, busy, stp, stopper, wfan, willOn>>
+                  /\ UNCHANGED <<cl, reading, sent, inq, outq, inDone, outDone, rcv, prc, snd, fan, busy, stp, stopper, wfan, willOn, willed, discd>>
 
 ---------------------------------------------------------------------------
 (* receiver goroutine: exits on socket error (only seen while in conn.Read, i.e. ring has room)
-   or when the in ring is closed; its deferred Close ends the in ring *)
+   or when the in ring is closed; its deferred Close ends the in ring, and since fix 92588da it
+   closes the out ring as well (nothing more will come from this connection: whoever waits for
+   room in its out ring, holding its write lock, is released) *)
 RcvExit(c) ==
   /\ rcv[c] = "run"
   /\ \/ (cl[c] = "cut" /\ Len(inq[c]) < InCap)
      \/ inDone[c]
   /\ rcv' = [rcv EXCEPT ![c] = "exit"] /\ inDone' = [inDone EXCEPT ![c] = TRUE]
-  /\ UNCHANGED <<cl, reading, sent, inq, outq, outDone, prc, snd, fan, busy, stp, stopper, wfan, willOn, srvClosed>>
+  /\ outDone' = [outDone EXCEPT ![c] = TRUE]
+  /\ UNCHANGED <<cl, reading, sent, inq, outq, prc, snd, fan, busy, stp, stopper, wfan, willOn, srvClosed, willed, discd>>
 
 (* sender goroutine: write error when the client is gone and there is something to write;
    end-of-stream when the out ring is closed; deferred Close ends the out ring *)
@@ -86,7 +97,7 @@ SndExit(c) ==
   /\ \/ (cl[c] = "cut" /\ outq[c] # <<>>)
      \/ outDone[c]
   /\ snd' = [snd EXCEPT ![c] = "exit"] /\ outDone' = [outDone EXCEPT ![c] = TRUE]
-  /\ UNCHANGED <<cl, reading, sent, inq, outq, inDone, rcv, prc, fan, busy, stp, stopper, wfan, willOn, srvClosed>>
+  /\ UNCHANGED <<cl, reading, sent, inq, outq, inDone, rcv, prc, fan, busy, stp, stopper, wfan, willOn, srvClosed, willed, discd>>
 
 (* processor *)
 Take(c) ==
@@ -94,7 +105,8 @@ Take(c) ==
   /\ busy' = [busy EXCEPT ![c] = TRUE]
   /\ fan' = [fan EXCEPT ![c] = IF Head(inq[c]) = "PUB" THEN SetToSeq(SubsOf[c]) ELSE <<>>]
   /\ willOn' = [willOn EXCEPT ![c] = IF Head(inq[c]) = "DISC" THEN FALSE ELSE @]
-  /\ UNCHANGED <<cl, reading, sent, inq, outq, inDone, outDone, rcv, prc, snd, stp, stopper, wfan, srvClosed>>
+  /\ discd' = [discd EXCEPT ![c] = IF Head(inq[c]) = "DISC" THEN TRUE ELSE @]
+  /\ UNCHANGED <<cl, reading, sent, inq, outq, inDone, outDone, rcv, prc, snd, stp, stopper, wfan, srvClosed, willed>>
 
 \* deliver to the next target: blocks while its ring is full and still open
 FanStep(c) ==
@@ -104,7 +116,7 @@ FanStep(c) ==
        \/ /\ ~outDone[s] /\ Len(outq[s]) < OutCap
           /\ outq' = [outq EXCEPT ![s] = Append(@, "PUB")]
   /\ fan' = [fan EXCEPT ![c] = Tail(@)]
-  /\ UNCHANGED <<cl, reading, sent, inq, inDone, outDone, rcv, prc, snd, busy, stp, stopper, wfan, willOn, srvClosed>>
+  /\ UNCHANGED <<cl, reading, sent, inq, inDone, outDone, rcv, prc, snd, busy, stp, stopper, wfan, willOn, srvClosed, willed, discd>>
 
 \* packet done: commit; a DISCONNECT makes the processor return
 Commit(c) ==
@@ -112,13 +124,13 @@ Commit(c) ==
   /\ busy' = [busy EXCEPT ![c] = FALSE]
   /\ inq' = [inq EXCEPT ![c] = Tail(@)]
   /\ prc' = [prc EXCEPT ![c] = IF Head(inq[c]) = "DISC" THEN "exit" ELSE "run"]
-  /\ UNCHANGED <<cl, reading, sent, outq, inDone, outDone, rcv, snd, fan, stp, stopper, wfan, willOn, srvClosed>>
+  /\ UNCHANGED <<cl, reading, sent, outq, inDone, outDone, rcv, snd, fan, stp, stopper, wfan, willOn, srvClosed, willed, discd>>
 
 \* nothing left to read and the ring is closed: processor returns
 PrcEof(c) ==
   /\ prc[c] = "run" /\ ~busy[c] /\ inq[c] = <<>> /\ inDone[c]
   /\ prc' = [prc EXCEPT ![c] = "exit"]
-  /\ UNCHANGED <<cl, reading, sent, inq, outq, inDone, outDone, rcv, snd, fan, busy, stp, stopper, wfan, willOn, srvClosed>>
+  /\ UNCHANGED <<cl, reading, sent, inq, outq, inDone, outDone, rcv, snd, fan, busy, stp, stopper, wfan, willOn, srvClosed, willed, discd>>
 
 ---------------------------------------------------------------------------
 (* teardown: started by the processor's deferred stop() or by Server.Close *)
@@ -129,13 +141,18 @@ StopBegin(c, who) ==
   /\ stp' = [stp EXCEPT ![c] = "join"] /\ stopper' = [stopper EXCEPT ![c] = who]
   /\ cl' = [cl EXCEPT ![c] = "cut"]                              \* conn.Close()
   /\ inDone' = [inDone EXCEPT ![c] = TRUE] /\ outDone' = [outDone EXCEPT ![c] = TRUE]
-  /\ UNCHANGED <<reading, sent, inq, outq, rcv, prc, snd, fan, busy, wfan, willOn, srvClosed>>
+  /\ UNCHANGED <<reading, sent, inq, outq, rcv, prc, snd, fan, busy, wfan, willOn, srvClosed, willed, discd>>
 
-StopJoin(c) ==
+StopJoin(c) ==       \* wgStopped.Wait() returns
   /\ stp[c] = "join" /\ rcv[c] = "exit" /\ prc[c] = "exit" /\ snd[c] = "exit"
-  /\ stp' = [stp EXCEPT ![c] = "will"]
-  /\ wfan' = [wfan EXCEPT ![c] = IF willOn[c] THEN SetToSeq(SubsOf[c]) ELSE <<>>]
-  /\ UNCHANGED <<cl, reading, sent, inq, outq, inDone, outDone, rcv, prc, snd, fan, busy, stopper, willOn, srvClosed>>
+  /\ stp' = [stp EXCEPT ![c] = "joined"]
+  /\ UNCHANGED <<cl, reading, sent, inq, outq, inDone, outDone, rcv, prc, snd, fan, busy, stopper, wfan, willOn, srvClosed, willed, discd>>
+
+StopWillBegin(c) ==  \* the will flag is still set: the will is handed to the fan-out (hook event stop.will)
+  /\ stp[c] = "joined" /\ willOn[c] /\ ~willed[c]
+  /\ stp' = [stp EXCEPT ![c] = "will"] /\ willed' = [willed EXCEPT ![c] = TRUE]
+  /\ wfan' = [wfan EXCEPT ![c] = SetToSeq(SubsOf[c])]
+  /\ UNCHANGED <<cl, reading, sent, inq, outq, inDone, outDone, rcv, prc, snd, fan, busy, stopper, willOn, srvClosed, discd>>
 
 StopWillStep(c) ==
   /\ stp[c] = "will" /\ wfan[c] # <<>>
@@ -144,16 +161,17 @@ StopWillStep(c) ==
        \/ /\ ~outDone[s] /\ Len(outq[s]) < OutCap
           /\ outq' = [outq EXCEPT ![s] = Append(@, "WILL")]
   /\ wfan' = [wfan EXCEPT ![c] = Tail(@)]
-  /\ UNCHANGED <<cl, reading, sent, inq, inDone, outDone, rcv, prc, snd, fan, busy, stp, stopper, willOn, srvClosed>>
+  /\ UNCHANGED <<cl, reading, sent, inq, inDone, outDone, rcv, prc, snd, fan, busy, stp, stopper, willOn, srvClosed, willed, discd>>
 
 StopDone(c) ==
-  /\ stp[c] = "will" /\ wfan[c] = <<>>
+  /\ \/ (stp[c] = "joined" /\ ~willOn[c])
+     \/ (stp[c] = "will" /\ wfan[c] = <<>>)
   /\ stp' = [stp EXCEPT ![c] = "done"]
-  /\ UNCHANGED <<cl, reading, sent, inq, outq, inDone, outDone, rcv, prc, snd, fan, busy, stopper, wfan, willOn, srvClosed>>
+  /\ UNCHANGED <<cl, reading, sent, inq, outq, inDone, outDone, rcv, prc, snd, fan, busy, stopper, wfan, willOn, srvClosed, willed, discd>>
 
 ---------------------------------------------------------------------------
 Broker(c) == RcvExit(c) \/ SndExit(c) \/ Take(c) \/ FanStep(c) \/ Commit(c) \/ PrcEof(c)
-             \/ StopBegin(c, "prc") \/ StopBegin(c, "srv") \/ StopJoin(c) \/ StopWillStep(c) \/ StopDone(c)
+             \/ StopBegin(c, "prc") \/ StopBegin(c, "srv") \/ StopJoin(c) \/ StopWillBegin(c) \/ StopWillStep(c) \/ StopDone(c)
 Env == \/ \E c \in Conns, k \in {"PUB", "DISC"} : Send(c, k)
        \/ \E c \in Conns : Recv(c) \/ StopReading(c) \/ Resume(c) \/ Cut(c)
        \/ ServerClose
@@ -170,4 +188,10 @@ Ended(c) == cl[c] = "cut" \/ prc[c] = "exit" \/ srvClosed
 TornDown == \A c \in Conns : Ended(c) ~> stp[c] = "done"
 CloseReturns == srvClosed ~> (\A c \in Conns : stp[c] = "done")
 AtDone == \A c \in Conns : stp[c] = "done" => rcv[c] = "exit" /\ prc[c] = "exit" /\ snd[c] = "exit"
+
+(* the life-cycle skeleton: every step of this module is a step of Life, or stutters on Life's variables *)
+LStp == [c \in Conns |-> CASE stp[c] = "no" -> "no" [] stp[c] = "join" -> "begun" [] stp[c] \in {"joined", "will"} -> "joined" [] OTHER -> "done"]
+L == INSTANCE Life WITH Conn <- Conns, stp <- LStp
+LifeRefined == [][L!Next]_(L!lvars)
+LifeInv == L!AtDone /\ L!WillDealtWith /\ L!NeverAfterDisconnect
 =========================================================================
